@@ -1,6 +1,6 @@
 (* Driver entry for C11: decodes a case, runs M (and S), encodes the answers. *)
 From Coq Require Import Ascii String Bool List.
-From CBI Require Import Lib.Data Lib.C11_types Gen.C11_tables Model.C11 Model.C11sh Spec.C11.
+From CBI Require Import Lib.Data Lib.C11_types Gen.C11_tables Model.C11 Model.C11sh Spec.C11 Spec.C11safe.
 Import ListNotations.
 Local Open Scope string_scope.
 
@@ -24,7 +24,7 @@ Definition enc_split (r : serr + list string) : data :=
   | inl NoEscapedCharacter => DList [DStr "Err"; DStr "NoEscapedCharacter"]
   end.
 
-(* cases:  (argv (t1 t2 ...))  ->  (M-result  S-lists  quote_join(argv)  split(quote_join(argv)))
+(* cases:  (argv (t1 t2 ...))  ->  (M-result  S-lists  quote_join(argv)  split(quote_join(argv))  safe(argv))
            (split s)           ->  split(s)                                                        *)
 Definition run_C11 (d : data) : data :=
   match d with
@@ -32,7 +32,8 @@ Definition run_C11 (d : data) : data :=
       match as_list_of as_str l with
       | Some argv =>
           let cmd := quote_join argv in
-          DList [enc_result (parse_args argv); enc_lists (scan_S argv); DStr cmd; enc_split (split_string cmd)]
+          DList [enc_result (parse_args argv); enc_lists (scan_S argv); DStr cmd; enc_split (split_string cmd);
+                 of_bool (safe argv)]
       | None => bad_case
       end
   | DList [DStr "split"; DStr s] => enc_split (split_string s)
